@@ -139,3 +139,154 @@ def replay_case(ctx, data):
     k = classify(r['vm'], r['src'])
     print('vm       :', r['vm']); print('reference:', r['src']); print('classification:', k)
     return 0 if k in ('agree',) or k.startswith('inconclusive') else 1
+
+
+# --------------------------------------------------------------------------- corpora
+def upstream_corpus(ctx):
+    """the repository's own tests/test_codegen.py (outputs recorded upstream from the real
+    emulator) executed with the Lean VM standing in for `spasm`"""
+    import subprocess
+    env = dict(os.environ, PYTHONPATH=os.path.join(hidlib.VERIF, 'harness', 'shim'))
+    p = subprocess.run(['/venv/bin/python', '-m', 'pytest', os.path.join(hidlib.REPO, 'tests', 'test_codegen.py'),
+                        '-q', '-p', 'no:cacheprovider', '-x', '--no-header', '-rN'],
+                       capture_output=True, text=True, env=env, timeout=900, cwd=hidlib.REPO)
+    tail = (p.stdout.strip().split('\n') or [''])[-1]
+    ctx.stats['upstream_corpus'] = tail
+    ok = p.returncode == 0
+    ctx.say('upstream corpus (52 recorded outputs) on the Lean VM:', tail)
+    if not ok:
+        # which test failed: re-run verbosely for the replay
+        failed = [l for l in p.stdout.split('\n') if 'FAILED' in l or 'Error' in l][:5]
+        ctx.violations.append(dict(what='upstream recorded output not reproduced', kind='CORPUS',
+                                   source='tests/test_codegen.py', args=[], config={}, detail=p.stdout[-3000:], failed=failed))
+    return ok
+
+
+EXAMPLES = {'hello': [], 'max': ['3', '9', '2', '7'], 'mergesort': ['5', '3', '9', '1', '4', '4'], 'factor': ['91', '97', '60'],
+            'optional_max': ['4', '2', '8'], 'decimal': ['22', '7'], 'ouroboros': []}
+
+
+def example_jobs(w=2, s=500, unchecked=False):
+    jobs = []
+    for n, a in EXAMPLES.items():
+        path = os.path.join(hidlib.REPO, 'examples', n + '.hid')
+        if os.path.exists(path):
+            jobs.append(('ex_' + n, open(path, encoding='utf-8').read(), a, w, s, unchecked, 3000000))
+    return jobs
+
+
+def corpus_jobs(w=2, s=500, unchecked=False):
+    """minimised past failures (corpus/*.json) run first in every differential check"""
+    jobs = []
+    d = os.path.join(hidlib.VERIF, 'corpus')
+    for f in sorted(os.listdir(d)) if os.path.isdir(d) else []:
+        if f.endswith('.json'):
+            c = json.load(open(os.path.join(d, f)))
+            cfg = c.get('config', {})
+            jobs.append(('corpus_' + f[:-5], c['source'], c.get('args', []), cfg.get('w', w), cfg.get('stack', s),
+                         cfg.get('unchecked', unchecked), 1000000))
+    return jobs
+
+
+# --------------------------------------------------------------------------- template conformance
+def conformance(ctx, jobs, label='templates'):
+    """every guard / branch label emitted by the real generator is surrounded by exactly the
+    instruction sequence of Compiler/Templates.lean (the tie for the template theorems)"""
+    cases = []
+    rejected = 0
+    for (cid, src, args, w, s, unchecked, fuel) in jobs:
+        try:
+            lines = hidlib.compile_src(src, w=w, s=s, unchecked=unchecked)
+        except Exception:
+            rejected += 1
+            continue
+        cases.append(dict(id=cid, asm=lines, args=args, opts=['conform']))
+    res = hidlib.run_parallel(cases, chunk=100)
+    bad = {k: r['vm'].notes[:4] for k, r in res.items() if r['vm'].outcome != 'ok'}
+    ctx.stats[label] = dict(programs=len(cases), nonconforming=len(bad), samples=dict(list(bad.items())[:3]))
+    if bad:
+        ctx.breaks.append(dict(kind='correspondence', name='template conformance (Compiler/Templates.lean vs emitted code)',
+                               detail=json.dumps(dict(list(bad.items())[:3]))[:1500]))
+        ctx.say('%s: %d of %d programs do NOT conform: %s' % (label, len(bad), len(cases), list(bad.items())[:2]))
+    else:
+        ctx.say('%s: all guard/branch templates conform in %d programs' % (label, len(cases)))
+    return not bad
+
+
+# --------------------------------------------------------------------------- tight stacks
+def set_stack(lines, s):
+    out = list(lines)
+    i = out.index(b'stack_start:')
+    assert out[i + 1].startswith(b'.zero '), out[i + 1]
+    out[i + 1] = b'.zero %dw' % s
+    return out
+
+
+def min_stack(base_cases, lo=0, hi=400, fuel=400000):
+    """lock-step binary search of the smallest stack size (words) whose VM run raises no
+    stack_overflow.  base_cases: {id: (asm_lines, args)} -> {id: S_min or None}"""
+    lo_ = {k: lo for k in base_cases}
+    hi_ = {k: hi for k in base_cases}
+    # make sure hi works
+    res = hidlib.run_parallel([dict(id=k, asm=set_stack(a, hi), args=g, fuel=fuel) for k, (a, g) in base_cases.items()])
+    alive = {k for k, r in res.items() if 'stack_overflow' not in r['vm'].flags and r['vm'].outcome == 'terminal'}
+    while True:
+        todo = [k for k in alive if lo_[k] < hi_[k]]
+        if not todo: break
+        mids = {k: (lo_[k] + hi_[k]) // 2 for k in todo}
+        res = hidlib.run_parallel([dict(id=k, asm=set_stack(base_cases[k][0], mids[k]), args=base_cases[k][1], fuel=fuel) for k in todo])
+        for k in todo:
+            r = res[k]['vm']
+            if 'stack_overflow' in r.flags or r.outcome != 'terminal': lo_[k] = mids[k] + 1
+            else: hi_[k] = mids[k]
+    return {k: (hi_[k] if k in alive else None) for k in base_cases}
+
+
+def tight_stack(ctx, jobs, deltas=(8, 1, 0, -1), label='tight-stack', timetravel=False):
+    """run each program with the monitor at S_min + delta; compare with the reference machine"""
+    cases, rejected = compile_cases(jobs)
+    base = {c['id']: (c['asm'], c['args']) for c in cases}
+    ref = hidlib.run_parallel([dict(id=c['id'], ast=c['ast'], args=c['args'], fuel=c['fuel'], opts=c['opts']) for c in cases])
+    smin = min_stack(base)
+    runs = []
+    for c in cases:
+        s0 = smin.get(c['id'])
+        if s0 is None: continue
+        for d in deltas:
+            if s0 + d < 0: continue
+            runs.append(dict(id='%s@%d' % (c['id'], d), asm=set_stack(c['asm'], s0 + d), args=c['args'], fuel=c['fuel'], opts=['mon']))
+    res = hidlib.run_parallel(runs)
+    tally = {}
+    jobmap = {j[0]: j for j in jobs}
+    nviol = 0
+    for rid, r in res.items():
+        cid, d = rid.rsplit('@', 1); d = int(d)
+        rv = r['vm']; rs = ref[cid]['src']
+        notes = [n for n in rv.notes if n.startswith('region')]
+        kind = None
+        if notes: kind = 'REGION'
+        elif rv.outcome == 'halted': kind = 'HALT'
+        elif rv.outcome.startswith('fault'): kind = 'FAULT'
+        elif d >= 0:
+            k = classify(rv, rs)
+            if k == 'DIFF': kind = 'CORRUPT'
+            elif k.startswith('inconclusive'): tally[k] = tally.get(k, 0) + 1
+        else:
+            if 'stack_overflow' not in rv.flags: kind = 'NO-OVERFLOW-BELOW-MINIMUM'
+            elif not timetravel and rs.outcome == 'terminal' and not rs.output.startswith(rv.output):
+                kind = 'OUTPUT-BEFORE-OVERFLOW-NOT-A-PREFIX'
+        tally[kind or 'ok'] = tally.get(kind or 'ok', 0) + 1
+        if kind and nviol < 3:
+            nviol += 1
+            _, src, args, w, s, unchecked, fuel = jobmap[cid]
+            ctx.violations.append(dict(what='%s: %s at minimal stack %+d words' % (label, kind, d), kind=kind, source=src,
+                                       args=list(args), config=dict(w=w, stack=smin[cid] + d, unchecked=False, monitor=True),
+                                       vm=describe(rv), notes=notes[:5], reference=describe(rs)))
+    st = ctx.stats.setdefault(label, {})
+    for k, v in tally.items(): st[k] = st.get(k, 0) + v
+    st['programs'] = st.get('programs', 0) + len(cases)
+    st['no_minimum_found'] = st.get('no_minimum_found', 0) + sum(1 for v in smin.values() if v is None)
+    ctx.stats['evaluations'] = ctx.stats.get('evaluations', 0) + len(runs)
+    ctx.stats['distinct_nontrivial'] = ctx.stats.get('distinct_nontrivial', 0) + tally.get('ok', 0)
+    ctx.say('%s: %s (programs %d)' % (label, tally, len(cases)))
+    return smin, res
